@@ -231,13 +231,38 @@ def disabled_probe(out):
     from py_gql.utilities import introspection_query
     schema = build_schema("type Query { a: Int } ")
     schema.query_type.field_map["a"].resolver = lambda r, c, i: 1
-    for q, what in (("{ a __schema { queryType { name } } }", "__schema"), ('{ a __type(name: "Query") { name } }', "__type"), ("{ a __typename }", "__typename")):
-        res = process_graphql_query(schema, q, disable_introspection=True)
+    from py_gql.execution import BlockingExecutor, Executor
+    schema2 = build_schema("type Query { a: Int  o: O  u: U } type O { b: Int } type P { c: Int } union U = O | P  type Mutation { m: O }")
+    schema2.query_type.field_map["a"].resolver = lambda r, c, i: 1
+    schema2.query_type.field_map["o"].resolver = lambda r, c, i: {"b": 2}
+    schema2.query_type.field_map["u"].resolver = lambda r, c, i: {"b": 3}
+    schema2.mutation_type.field_map["m"].resolver = lambda r, c, i: {"b": 4}
+    schema2.get_type("U").resolve_type = lambda v, *a: "O"
+    cases = [(schema, q, what, ex) for q, what in (("{ a __schema { queryType { name } } }", "__schema"), ('{ a __type(name: "Query") { name } }', "__type"), ("{ a __typename }", "__typename"))
+             for ex in (Executor, BlockingExecutor)]
+    # every executor variant enforces the option, wherever the meta field is selected (nested object, abstract type, mutation root)
+    cases += [(schema2, q, what, ex) for q, what in (("{ a o { b __typename } }", "__typename-nested"), ("{ a u { __typename ... on O { b } } }", "__typename-abstract"),
+                                                    ("mutation { m { b } __typename }", "__typename-mutation-root"))
+              for ex in (Executor, BlockingExecutor)]
+    for sch, q, what, ex in cases:
+        what = "%s/%s" % (what, "optimised" if ex is BlockingExecutor else "generic")
+        res = process_graphql_query(sch, q, disable_introspection=True, executor_cls=ex)
         data = res.data or {}
+
+        def flat(d, acc):
+            for k, v in (d or {}).items():
+                if k.startswith("__") and v is not None:
+                    acc.append(k)
+                if isinstance(v, dict):
+                    flat(v, acc)
+            return acc
+        if flat(data, []):
+            out.setdefault("intro/disabled-leaks/%s" % what, ["introspection data visible although disabled", {"query": q, "data": repr(data)}])
+            continue
         leaked = [k for k in data if k.startswith("__") and data[k] is not None]
         if leaked:
             out.setdefault("intro/disabled-leaks/%s" % what, ["introspection data visible although disabled", {"query": q, "data": repr(data)}])
-        if not res.errors and data.get("a") != 1:
+        if not res.errors and q.startswith("{ a") and data.get("a") != 1:
             out.setdefault("intro/disabled-breaks-ordinary-field/%s" % what, ["ordinary field affected by disabling introspection", {"query": q, "data": repr(data)}])
 
 
